@@ -6,7 +6,7 @@ States  = {RKS, UKS} x density fitting x feature family (semilocal GGA / meta-GG
           component of the force vector (a complete basis, 3 natm) is decided.
 Oracle  = with grid_response=True: analytic force component vs Richardson-extrapolated central
           differences of converged SCF energies at displaced geometries (delta = 2e-3, 1e-3 Bohr),
-          1e-6 Ha/Bohr; sum over atoms of the forces = 0 and zero torque to 1e-7;
+          1e-6 Ha/Bohr; sum over atoms of the forces = 0 to 1e-7 (net torque: quadrature-level bound only);
           with grid_response=False: bound on the coarse discretisation (2e-2), and in the thorough
           tier agreement to 1.5e-3 on a refined discretisation (grid and auxiliary expansion); unsupported combinations (SDMX, fractional-Laplacian
           features, several density matrices) must raise NotImplementedError.
@@ -194,7 +194,11 @@ def run_sumrule(case):
     if s > 1e-7:
         fails.append({"key": "forces-do-not-sum-to-zero;" + ck, "msg": "sum over atoms of the gradient = %s with grid response" % an.sum(0)})
     torque = np.cross(c0, an).sum(0)
-    if np.abs(torque).max() > 1e-7:
+    # translations move the atom-centred grids with the molecule (sum of forces = 0 exactly); rotations do not rotate the
+    # Lebedev orientations, so the energy is rotationally invariant only to quadrature accuracy and the net torque is of
+    # that size for a molecule without symmetry (measured 1.8e-3 for the asymmetric H2O on the (20,50) grid; exactly 0 by
+    # symmetry for LiH and NH2): gross-error bound only
+    if np.abs(torque).max() > 2e-2:
         fails.append({"key": "nonzero-torque;" + ck, "msg": "net torque %s with grid response" % torque})
     g2 = ks.nuc_grad_method()
     g2.verbose = 0
